@@ -49,3 +49,10 @@ add("C06", "in-memory fold oracle over executions of one record multiset; partit
     "check that merge_breakpoints is a strictly increasing partition and that merge epochs are sorted, duplicate-free "
     "and disjoint. A sys.addaudithook on tempfile.mkstemp plus a fresh-directory listing decide the temp-file clause.",
     "DESIGN.md section 4 C06")
+add("C07", "fold-of-generated-dicts oracle over merge executions (orders x buffers x aggregations x nesting); refusal and overflow drivers",
+    "Input coolers (1..5, incl. empty, identical/disjoint supports, mixed int/float value dtypes) are merged by the real "
+    "merge_coolers under permutations of the inputs, mergebuf from 1 record, sum/max/min/mean and nested merges; the raw "
+    "pixel table, the sum attribute and cross-execution content digests are compared with an exact fold. Incompatible "
+    "pairs of every kind must raise and leave no cooler; integer aggregates beyond int32/uint16/int16/uint8 must raise or "
+    "be stored exactly. Probes check the merge partition and epoch disjointness on every real call.",
+    "DESIGN.md section 4 C07")
